@@ -26,6 +26,8 @@ def run_property(pid, repo, tier='quick', seed=0, quiet=False):
     try:
         repo.check_module_count()
         mod.run(ctx)
+        from .names import names_rule
+        names_rule(ctx)          # NAME-1: the functions the rules analysed read no name that nothing binds
     except AnalysisError as e:
         ctx.error(str(e))
     except RecursionError:
